@@ -124,18 +124,8 @@ pub fn c17_q_twin_thin() {
     check!(last != b, "twin.must_fail");
 }
 
-/// thick lines with SYMBOLIC end points in [0,3]^2 and width 1..=3: no pixel twice, contains the thin
-/// line, width 1 == points(), corridor and end bounds, inside the styled bounding box
-#[cfg(feature = "thorough")]
-#[cfg_attr(kani, kani::proof, kani::unwind(30))]
-pub fn c02_c17_t_thick_sym_b2() {
-    let a = Point::new(small_u(2) as i32, small_u(2) as i32);
-    let b = Point::new(small_u(2) as i32, small_u(2) as i32);
-    let w = 1 + upto(2);
-    let q = Point::new(small_u(3) as i32 - 2, small_u(3) as i32 - 2);
-    note!("q", q);
-    thick_claims_light(a, b, w, q);
-}
+// (A harness with SYMBOLIC end points in [0,3]^2 and widths 1..=3 — `thick_claims_light` below with a
+// symbolic probe — reached 8.7 GB and no verdict within the 2700 s thorough cap; thick lines stay regime G.)
 
 /// thick_claims without the extra draw() rendering (one pixels() loop + one points() loop)
 pub fn thick_claims_light(a: Point, b: Point, w: u32, q: Point) {
